@@ -84,6 +84,9 @@ func NewListener(cfg *service.Listener, stats *DownstreamStats, logger log.Logge
 }
 
 func (l *listener) Serve() error {
+	// Stop waits for done whatever path Serve takes.
+	defer close(l.done)
+
 	ip := l.cfg.GetAddress().GetIp()
 	port := l.cfg.GetAddress().GetPort()
 	address := fmt.Sprintf("%s:%d", ip, port)
@@ -120,7 +123,17 @@ func (l *listener) Serve() error {
 	}
 
 	verifhook.At("listener.Serve.publish", l)
+	l.mu.Lock()
 	l.ln = ln
+	l.mu.Unlock()
+	// Stop or Drain may have looked for the socket before it was published.
+	select {
+	case <-l.quit:
+		ln.Close()
+	case <-l.drain:
+		ln.Close()
+	default:
+	}
 	l.Infof("start serving at %s", ln.Addr().String())
 	l.serve()
 	l.Infof("stop serving at %s, waiting all conns done", ln.Addr().String())
@@ -129,7 +142,6 @@ func (l *listener) Serve() error {
 	l.connsWg.Wait()
 	l.Infof("all conns done")
 	verifhook.At("listener.Serve.closeDone", l)
-	close(l.done)
 	return nil
 }
 
@@ -254,11 +266,18 @@ func (l *listener) connsLimit() bool {
 	return true
 }
 
+func (l *listener) listener() net.Listener {
+	l.mu.Lock()
+	defer l.mu.Unlock()
+	return l.ln
+}
+
 func (l *listener) Address() string {
-	if l.ln == nil {
+	ln := l.listener()
+	if ln == nil {
 		return ""
 	}
-	return l.ln.Addr().String()
+	return ln.Addr().String()
 }
 
 func (l *listener) Drain() error {
@@ -267,8 +286,8 @@ func (l *listener) Drain() error {
 		close(l.drain)
 	})
 	verifhook.At("listener.Drain.readLn", l)
-	if l.ln != nil {
-		l.ln.Close()
+	if ln := l.listener(); ln != nil {
+		ln.Close()
 	}
 	return nil
 }
@@ -283,11 +302,12 @@ func (l *listener) Stop() error {
 	l.mu.Lock()
 	conns := l.conns
 	l.conns = nil
+	ln := l.ln
 	l.mu.Unlock()
 
 	verifhook.At("listener.Stop.readLn", l)
-	if l.ln != nil {
-		l.ln.Close()
+	if ln != nil {
+		ln.Close()
 	}
 	verifhook.At("listener.Stop.closeConns", l)
 	for conn := range conns {
